@@ -106,7 +106,7 @@ class Diff:
             atom = self.c.sigma_table.get(e.get_id())
             if atom is not None:
                 return self._d_sigma(atom)
-            if name in ("log", "exp", "sqrt", "tanh", "erf", "erfc", "erfcx", "pow", "npdf", "ncdf") and ch:
+            if name in ("log", "exp", "sqrt", "tanh", "erf", "erfc", "erfcx", "pow", "npdf", "ncdf", "mills") and ch:
                 x = ch[0]
                 dx = self(x)
                 if name == "pow":
@@ -128,7 +128,11 @@ class Diff:
                 if name == "tanh":
                     return (1 - e * e) * dx
                 if name == "erf":
-                    return (2 / S.uf("sqrt", S._PI)) * S.uf("exp", -(x * x)) * dx
+                    return (2 / S.z(S.sqrt_(S.Sym(S._PI)))) * S.uf("exp", -(x * x)) * dx
+                if name == "mills":            # Phi(x)/phi(x): derivative x*mills(x) + 1 (proved for the real code in C18)
+                    return (x * e + 1) * dx
+                if name == "erfcx":
+                    return (2 * x * e - 2 / S.z(S.sqrt_(S.Sym(S._PI)))) * dx
                 if name == "npdf":
                     return -x * e * dx
                 if name == "ncdf":
